@@ -424,7 +424,9 @@ func (p *Prog) BuildAliases() {
 				}
 				cal := c.Common().StaticCallee()
 				if cal == nil || !p.InModule(cal) || cal.Parent() != nil {
-					if _, isMC := c.Common().Value.(*ssa.MakeClosure); isMC {
+					// a forwarder does nothing else: any other call (dynamic, library,
+					// literal) means the function still has a body of its own
+					if _, isBuiltin := c.Common().Value.(*ssa.Builtin); !isBuiltin {
 						other++
 					}
 					return
